@@ -15,6 +15,10 @@ from ..guards import GuardGraph, normal_succ
 from ..model import AnalysisError, first_line, src_of
 
 MUTATORS = ("append", "extend", "insert", "remove", "pop", "clear", "sort", "reverse", "__iadd__", "__setitem__", "__delitem__", "update", "add", "discard", "setdefault", "popitem")
+# enumerated exceptions of the ownership rule, one line of reason each
+WHITELIST = {
+    ("global", "_metaclass", "_CONTRACT_CLASSES"): "weak registry of classes announced to the integrator hook; it holds no contracts (see C18.register)",
+}
 FRESH_CALLS = (("builtin", "list"), ("builtin", "dict"), ("builtin", "set"), ("builtin", "sorted"), ("builtin", "tuple"), ("builtin", "frozenset"))
 
 
@@ -152,6 +156,9 @@ def ownership_rule(run, model, rule, modules=("_metaclass",)):
                 own = ownership(model, recv, summ)
                 n_sites += 1
                 construct = "%s:%s@%s" % (fi.qual, how, _ordinal(sites, n, how))
+                if recv in WHITELIST:
+                    run.ok(rule, construct, "whitelisted: %s" % WHITELIST[recv], fi.loc(n), nontrivial=False)
+                    continue
                 if own == "fresh":
                     run.ok(rule, construct, "receiver %s is created in this activation" % show(strip_sites(recv), 80), fi.loc(n))
                 elif own.startswith("param:"):
@@ -444,6 +451,13 @@ def snapshot_provenance(run, model, rule):
                         tt = src_of(p.ast)
                         if " is " not in tt:
                             bad = "a snapshot is skipped under `%s`: only the very same snapshot object reached along several inheritance paths may be skipped, an equally named different snapshot is a conflict" % tt
+        # diamond: the very same snapshot object collected along two inheritance paths is not a conflict
+        ident = False
+        for sub in ast.walk(fi.node):
+            if isinstance(sub, ast.Compare) and len(sub.ops) == 1 and isinstance(sub.ops[0], (ast.Is, ast.IsNot)) and not (isinstance(sub.comparators[0], ast.Constant) and sub.comparators[0].value is None):
+                ident = True
+        if not ident and bad is None:
+            bad = "equal names always raise: the very same snapshot object inherited along two paths of a diamond is reported as a conflict (no identity test)"
         # names are recorded
         adds = [n for n in flow.cfg.nodes for call, c, a in calls_in(n) if isinstance(call.func, ast.Attribute) and call.func.attr == "add" and [flow.term(x, n) for x in call.args] == [("attr", el, "name")]]
         if not adds and bad is None:
